@@ -47,7 +47,7 @@ def load_known():
             if ln.startswith("finding:"):
                 kv = dict(re.findall(r"(\w+)=(\S+)", ln))
                 what = ln.split("what=", 1)[1] if "what=" in ln else ""
-                out.append({"property": kv.get("property"), "obligation": kv.get("obligation"), "what": what})
+                out.append({"property": kv.get("property"), "obligation": kv.get("obligation"), "witness": kv.get("witness"), "what": what})
     return out
 
 
@@ -442,6 +442,25 @@ def check_property(prop, tier, seed):
             crosscheck_hit = True
     for kf, f in known_hits:
         log(f"KNOWN-FINDING: property={prop} obligation={f['obligation']} {kf['what']}")
+    # findings that no obligation expresses (found by a search harness): listed with their witness; the witness is
+    # replayed on the current tree on every run and the line is printed only while it still fails there
+    witness_findings = []
+    for kf in known:
+        if kf.get("witness") and not kf.get("obligation"):
+            exe, err = replay_bin()
+            if not exe:
+                witness_findings.append({"witness": kf["witness"], "replayed": "replay crate does not build: " + err[-200:]})
+                continue
+            try:
+                pr = subprocess.run([exe, os.path.join(HERE, kf["witness"])], capture_output=True, text=True, timeout=300)
+                still = pr.returncode == 1 and "REPLAY: FAILS" in pr.stdout
+            except Exception as e:
+                still, pr = False, None
+            witness_findings.append({"witness": kf["witness"], "replayed": "fails on the current tree" if still else "no longer fails on the current tree", "what": kf["what"][:300]})
+            if still:
+                log(f"KNOWN-FINDING: property={prop} witness={kf['witness']} {kf['what']}")
+    if witness_findings:
+        coverage["known_findings_by_witness"] = witness_findings
     if violations:
         os.makedirs(os.path.join(HERE, "replays"), exist_ok=True)
         witness, why = (None, "")
@@ -449,16 +468,21 @@ def check_property(prop, tier, seed):
             witness, why = find_witness(prop, seed, 20000 if tier == "quick" else 200000)
         except Exception as e:  # the search is best effort
             why = f"witness search crashed: {e}"
-        for f in violations[:1]:
+        # proof aids are lost per item: only a failure inside an item that lost aids is a failed proof rather than a
+        # failed obligation; a failure in an item whose aids are all in place stands whatever happened elsewhere
+        def lost_for(f):
+            return [a for a in lost if f.get("item") and a.split(":")[0].strip() == f["item"]]
+        solid = [f for f in violations if not lost_for(f)]
+        for f in (solid or violations)[:1]:
             path = os.path.join(HERE, "replays", f"{prop}-{re.sub(r'[^A-Za-z0-9_.-]+', '_', f['obligation'])}.json")
             rep = {"property": prop, "obligation": f["obligation"], "function": f["fn"], "repo_site": f["repo_site"],
                    "message": f["message"], "verifier_output": f["rendered"], "all_failed_obligations": [v["obligation"] for v in violations],
                    "witness": witness, "no_witness_reason": None if witness else why,
                    "replay_cmd": f"python3 check.py replay {path}"}
             json.dump(rep, open(path, "w"), indent=1)
-            if lost and not witness:
+            if lost_for(f) and not witness:
                 # proof aids were lost AND no failing input replays on the real code: a failed proof, not a verdict
-                undecided.append(f"obligation {f['obligation']} fails, but proof aids were lost ({'; '.join(lost)[:300]}) and no failing input was found")
+                undecided.append(f"obligation {f['obligation']} fails, but proof aids were lost ({'; '.join(lost_for(f))[:300]}) and no failing input was found")
                 violations = []
                 break
             suffix = "" if witness else " no-failing-input-found"
